@@ -108,13 +108,18 @@ CFG = dict(
                  "before the error (model: handle_attempt; specification: ghost candidates of Lib/RouteSpec.v match_spec_g, validated "
                  "against the real Mux on every run, proved equal to match_spec when nothing was rejected); isolation is then stated "
                  "against a fresh Mux with the SAME registration attempts (C05_request_isolation), and against the router "
-                 "specification when all were accepted (C05_request_isolation_accepted)",
+                 "specification when all were accepted (C05_request_isolation_accepted)"
+                 "whether a rejected Handle leaves trie nodes behind is NOT part of the property: the check accepts, consistently within a "
+                 "history, the dispatch of either variant (HEAD's leftover nodes = ghost specification, or nothing left = match_spec on the "
+                 "accepted routes); histories in which the implementation showed the second are counted as residue_differs / drift",
                  "ids are unique until the 64-bit counter wraps (2^64 requests per Mux); that the counter of the source at hand IS 64 bits "
                  "wide and rendered untruncated is a static obligation checked on every run (gen/c05counter + Lib/CounterFacts.v), not an assumption",
                  "a handler does not keep the *Store (or the string returned by GetID, which aliases the Store's buffer) after it returns",
-                 "W.Status changes only through the request's own actions: WriteHeader / Write (model label LWrite k (WriteHeader c)), "
-                 "Flush / FlushError (LWrite k Flush: 200 if it was 0) and the relay's own bookkeeping (Logger.Relay sets 200 at REQ_END and "
-                 "500 after a recovered panic; the harness logs these as writes of that request)"],
+                 "W.Status changes only through the request's own actions (WriteHeader, Write, Flush, a wrapper writer installed by the "
+                 "handler, the relay's bookkeeping); HOW the writer records them (last code wins, first final code wins ...) is not part "
+                 "of C05: the harness reads the status back after each own action and logs that (model label LWrite k (WriteHeader s)), "
+                 "and the Go oracle compares the status at exit / after the relay with the same request on a fresh Mux; a Handle that "
+                 "rejects MORE than the specification demands is tolerated (the route is simply not registered; stat rejects_more)"],
 )
 CFG["manifest"] = dict(
     text=("Proof: for every history of a Mux - registrations, requests that overlap arbitrarily, any choice of pooled or new Store by "
